@@ -238,6 +238,15 @@ fn run_case(case: &Value, variation: u64, vbp: &Path, scratch: &Path) -> Vec<Pro
     if stderr.contains("panicked at") && !stderr.contains("scripted") {
         problems.push(Problem { prop: "C05", sig: path_sig.clone(), detail: format!("the buildpack process panicked: {}", stderr.lines().take(3).collect::<Vec<_>>().join(" | ")) });
     }
+    // C06: an input that cannot be read / represented (store, plan, platform env content) must be
+    // a reported error; if buildpack code ran anyway the input was silently dropped or altered
+    if out["exit"] == "err" && out["userdetect"] == 0 && out["userbuild"] == 0 && n_detect + n_build > 0 {
+        for f in ["store", "plan", "platform"] {
+            if consulted.contains(f) && !matches!(c(f), "ok" | "rich" | "noenvdir" | "absent") {
+                problems.push(Problem { prop: "C06", sig: format!("unreadable input silently ignored: {f}={}", c(f)), detail: format!("{f} is {} (must be a reported error) but the {} code ran with a context that pretends otherwise", c(f), c("exe")) });
+            }
+        }
+    }
     // C06: inputs that must be tolerated (directories and links in <platform>/env, a missing env
     // directory, a missing store.toml) but made context assembly fail
     if matches!(out["exit"].as_str().unwrap(), "0" | "100") && n_detect + n_build == 0 && n_err > 0 {
